@@ -243,6 +243,44 @@ def tscParallel1 (c : Cfg) (grid : List Rat) (parts : List Particle) (wrap : Boo
   let ps := if wrap then wrapInplace c.box parts else parts
   (ps, scatter c grid ps)
 
+/-! ### `power_spectrum.get_field` and `normalize_field` -/
+
+/-- `normalize_field(field, tot_weight=N, inplace=True)`:
+`norm = dtype(field.size / tot_weight)`, `flatfield[i] = flatfield[i] * norm - 1`.
+`tot_weight = 0` makes the division raise `ZeroDivisionError` (`rejected`). -/
+def normalizeField (field : List Rat) (totWeight : Nat) : Except Fault (List Rat) :=
+  if totWeight = 0 then .error .rejected
+  else
+    let norm : Rat := (field.length : Rat) / (totWeight : Rat)
+    .ok (field.map (fun v => v * norm - 1))
+
+/-- `pos + d` of the CIC branch (a new array; the caller's positions are not modified) -/
+def shiftParticle (d : Rat) (pt : Particle) : Particle :=
+  { x := pt.x + d, y := pt.y + d, z := pt.z + d, w := pt.w }
+
+/-- `get_field(pos, Lbox, nmesh, paste, w, d, nthread=1, dtype)`:
+
+```python
+field = np.zeros((nmesh, nmesh, nmesh), dtype=dtype)
+if paste == 'TSC':   tsc_parallel(pos, field, Lbox, weights=w, nthread=nthread, offset=d)     # wrap=True: pos wrapped in place
+elif paste == 'CIC': cic_serial(pos + d, field, Lbox, weights=w) if d != 0.0 else cic_serial(pos, field, Lbox, weights=w)
+normalize_field(field, inplace=True, tot_weight=len(pos))
+```
+
+TSC wraps the caller's positions in place and applies the offset inside the kernel; CIC adds the offset to the
+positions and **never wraps**.  Returns the caller's positions after the call and the field (or the fault). -/
+def getField (kind : Kind) (nmesh : Nat) (box d : Rat) (parts : List Particle) :
+    List Particle × Except Fault (List Rat) :=
+  let zeros : List Rat := List.replicate (nmesh * nmesh * nmesh) 0
+  match kind with
+  | .tsc =>
+    let r := tscParallel1 { kind := .tsc, gx := nmesh, gy := nmesh, gz := nmesh, box := box, off := d } zeros parts true
+    (r.1, r.2 >>= fun f => normalizeField f parts.length)
+  | .cic =>
+    let ps := if d ≠ 0 then parts.map (shiftParticle d) else parts
+    (parts, scatter { kind := .cic, gx := nmesh, gy := nmesh, gz := nmesh, box := box, off := 0 } zeros ps
+              >>= fun f => normalizeField f parts.length)
+
 /-! ### driver -/
 
 def parseParticle? (s : String) : Option Particle :=
@@ -277,6 +315,7 @@ def showAxis (g : Nat) (a : Axis) : String :=
 /-- requests
 * `scatter <tsc|cic> gx gy gz box offset <grid|z> <particles>` → `ok v0,v1,…` (row-major) | `err …`
 * `tscpar <wrap 0|1> gx gy gz box offset <grid|z> <particles>` → `<wrapped positions> ok …`
+* `getfield <tsc|cic> nmesh box d <particles>` → `<positions after the call> ok f0,f1,…` (normalised field)
 * `wrap box <particles>` → wrapped positions
 * `axis <tsc|cic> g p` → `ix=… w=wm,w0,wp cells=…`
 particles: `x,y,z,w;x,y,z,w;…` or `-`. -/
@@ -303,6 +342,13 @@ def handle (args : List String) : String :=
         s!"{showParticles r.1} {showGrid r.2}"
       | none => "bad-length"
     | _, _, _, _, _, _, _ => "bad-op"
+  | ["getfield", kind, n, box, d, parts] =>
+    match parseKind? kind, parseNat? n, parseRat? box, parseRat? d, parseParticles? parts with
+    | some kind, some n, some box, some d, some parts =>
+      if n = 0 then "- err rejected" else
+      let r := getField kind n box d parts
+      s!"{showParticles r.1} {showGrid r.2}"
+    | _, _, _, _, _ => "bad-op"
   | ["wrap", box, parts] =>
     match parseRat? box, parseParticles? parts with
     | some box, some parts => showParticles (wrapInplace box parts)
